@@ -193,7 +193,7 @@ def real_servers(ctx, traces, metas):
     from drivers import realproc as rp
     from props.reload_real import _parallel
     rng = ctx.rng
-    plan = [("gevent", "0.4"), ("gthread", None), ("sync", "0.4"), ("eventlet", None)] if ctx.quick else \
+    plan = [("gevent", "0.4"), ("gthread", None), ("sync", "0.4"), ("eventlet", "0.4")] if ctx.quick else \
         [(wk, to) for wk in ("sync", "gthread", "gevent", "eventlet") for to in (None, "0.4")]
     jobs = {}
     for key in plan:
